@@ -50,3 +50,5 @@ Proof. vm_compute. reflexivity. Qed.
 Lemma ex_rc_mk_sweep : forallb (fun b => (ex_rc (ex_mk_left b) =? ex_mk_right (comp b)) && (ex_rc (ex_mk_right b) =? ex_mk_left (comp b))
                                           && (ex_mk_left b <? 256) && (ex_mk_right b <? 256)) [0; 1; 2; 3] = true.
 Proof. vm_compute. reflexivity. Qed.
+Lemma ex_add_lt_sweep : forallb (fun a => forallb (fun b => ex_add a b <? 256) all_exts) all_exts = true.
+Proof. vm_compute. reflexivity. Qed.
